@@ -19,6 +19,9 @@ CONSTANTS PowerDeltas,    \* set of <<raw delta, qa delta>>
 DeltasQuick == {<<2, 3>>, <<-2, -3>>, <<1, 1>>, <<-1, -2>>}
 DeltasWide  == {<<2, 3>>, <<-2, -3>>, <<1, 1>>, <<-1, -1>>, <<1, -1>>, <<0, 1>>, <<3, 3>>, <<-3, -4>>, <<0, -2>>}
 
+\* for the simulation config (threshold 4): more ways up than down, so that MinMiners miners get above it
+DeltasSim   == {<<4, 4>>, <<5, 9>>, <<8, 8>>, <<1, 2>>, <<3, 3>>, <<-4, -4>>, <<-1, -1>>, <<-5, -9>>, <<-3, -3>>,
+                <<1, -1>>, <<0, -2>>, <<0, 3>>}
 PledgeQuick == {1, -1, -2}
 PledgeWide  == {1, 2, -1, -3}
 OffsetsQuick == {-1, 0}
@@ -80,7 +83,11 @@ MCNext == CreateOK \/ CreateRej \/ PowerOK \/ PowerRej \/ EnrolOK \/ EnrolRej \/
 \* simulation: sample instead of enumerating
 SimPick(S, n) == RandomSubset(IF Cardinality(S) < n THEN Cardinality(S) ELSE n, S)
 SimNext ==
+  IF Len(hist) < NumMiners - 1          \* first populate the world
+  THEN \E call \in CreateCalls : DoCall(call, TRUE)
+  ELSE
   \/ (P.created < Len(MinerSeq) /\ \E call \in CreateCalls : DoCall(call, TRUE))
+  \/ (P.created < Len(MinerSeq) /\ \E call \in CreateCalls : DoCall(call, FALSE))
   \/ \E call \in SimPick(PowerCalls, 12) : DoCall(call, TRUE)
   \/ \E call \in SimPick(PowerCalls, 12) : DoCall(call, TRUE)
   \/ \E call \in SimPick(PowerCalls, 3) : DoCall(call, FALSE)
